@@ -1,26 +1,84 @@
 #!/usr/bin/env python3
-"""usage: mk_seed_prompts.py <round-root> — writes <round-root>/prompts/Cxx.txt for every claimed property: the property text
-(from properties.jsonl), the scratch worktree path, the delivery protocol and a one-line list of the changes earlier rounds
-already produced (so that new ones use other mechanisms). Nothing else from /verif goes into a prompt."""
+"""usage: mk_seed_prompts.py <round-root> [Cxx ...] — writes <round-root>/prompts/Cxx.txt for every property (or the listed
+ones): the property text (from properties.jsonl), the scratch worktree path, the delivery protocol and a one-line list of
+the changes earlier rounds already produced (so that new ones use other mechanisms). Nothing else from /verif goes into a
+prompt. The template is embedded here (the earlier version read it from a scratch directory that a restore removes)."""
 import json, os, sys, glob
+
+TEMPLATE_HEAD = """You are helping to evaluate how well a verification framework detects realistic regressions in NVIDIA/KAI-Scheduler
+(a Kubernetes batch scheduler for GPU workloads, written in Go). You get ONE semantic property of the system (below) and
+your own scratch git worktree of the repository at
+
+    @WT@
+
+Work ONLY inside that worktree and inside your output directory @OUT@ . Do NOT read, list or modify anything under /verif,
+and do NOT modify /repo (it is the main checkout; your worktree is a separate directory). There is no network.
+
+YOUR TASK: produce TWO independent changes to the production code (call them mutA and mutB; different functions /
+mechanisms, ideally different files) such that EACH of them
+
+  1. BREAKS the property below (a real behavioural violation that a user would suffer from),
+  2. still compiles (`go build ./...`) and still passes the EXISTING test suite of every package it touches and of the
+     packages that exercise it (run them; see the environment reminder),
+  3. looks like something a competent developer could plausibly commit: a refactoring slip, an 'optimisation', a
+     simplification, a copy/paste mistake, an off-by-one, a swapped argument, a guard that looks redundant, a moved
+     statement, a changed default - NOT sabotage, no dead code, no comments that give it away, and SMALL (a few lines),
+  4. needs something SPECIFIC to manifest - a particular interleaving, a crash or API fault at a particular point, a
+     multi-step sequence of operations, an unusual but legal input, or two cooperating sites that each look fine alone -
+     NOT something ordinary use or the existing tests would expose at once.
+
+For each change also write a DEMONSTRATION: a Go test file (new `_test.go` file, self-contained, using only what the
+repository already has - its fakes, test utilities, fake clientsets) that PASSES on the unmodified code and FAILS with the
+change applied, and whose failure message says how the property is violated. Run it both ways yourself.
+
+"""
+
+TEMPLATE_TAIL = """Environment reminder:
+  export PATH=/opt/veriftools/go1.26.8/bin:$PATH GOFLAGS=-mod=mod GOPROXY=off GOSUMDB=off GOTOOLCHAIN=local; unset GOWORK
+  (put this in front of EVERY shell command; the environment does not persist between commands)
+  Tests: `go test -mod=mod -vet=off -count=1 -p 4 ./pkg/<area>/...` (use -p 4, other people share the machine). The envtest
+  suites (pkg/binder/controllers/integration_tests, pkg/env-tests, pkg/queuecontroller/controllers, any suite that fails in
+  BeforeSuite because /usr/local/kubebuilder/bin/etcd is missing) cannot start on this machine and fail identically on the
+  unmodified code: ignore them. TestReclaimGpuDRAIntegrationTest is flaky on the unmodified tree.
+  Read the code first (start from the listed files, follow callers/callees); the repository's docs/ directory explains the
+  intended behaviour.
+
+DELIVERY (exactly this layout; it is processed by a script):
+  @OUT@/mutA/patch.diff     `git diff` of the PRODUCTION change only (no test files), applies to the worktree's HEAD with `git apply`
+  @OUT@/mutA/demo_test.go   the demonstration test file
+  @OUT@/mutA/DEMO.md        where to put the demo, as a line of the form
+                                pkg/<...>/<name>_demo_test.go
+                            and the exact command, as a line of the form
+                                go test -mod=mod -vet=off -count=1 ./pkg/<...>/ -run <TestName> -v
+                            plus what is expected without and with the patch
+  @OUT@/mutA/meta.json      {"property": "@PID@", "summary": "<file, function, what was changed and why it breaks the property>",
+                             "needs_to_manifest": "<the specific input / sequence / interleaving / fault needed>",
+                             "files_changed": ["pkg/..."], "tests_run": ["<command -> result>", ...],
+                             "demo_cmd": "<the go test command>", "demo_passes_without_patch": true, "demo_fails_with_patch": true}
+  and the same four files under @OUT@/mutB/ .
+When you are done, leave the worktree clean (`git checkout -- .` and remove your demo files from it) - the deliverables live
+only in @OUT@ . Your final message: two or three sentences per change (what, where, what it needs to manifest).
+"""
+
 root = sys.argv[1]
-tmpl = open("/var/tmp/seed2/prompts/C13.txt").read()
-head_end = tmpl.index("THE PROPERTY")
-tail_start = tmpl.index("Environment reminder:")
+only = set(sys.argv[2:])
+os.makedirs(f"{root}/prompts", exist_ok=True)
 for line in open("/verif/properties.jsonl"):
     p = json.loads(line)
     pid = p["id"]
-    if pid == "C15":
+    if only and pid not in only:
         continue
     taken = []
     for d in sorted(glob.glob(f"/verif/seeded/{pid}-*")):
         m = json.load(open(d + "/meta.json"))
         s = (m.get("summary") or "").replace("\n", " ")
         taken.append("  - " + s[:220] + ("…" if len(s) > 220 else ""))
-    head = tmpl[:head_end].replace("/var/tmp/seed2/C13", f"{root}/{pid}")
-    body = f"THE PROPERTY ({pid}: {p['title']})\nStatement: {p['statement']}\nQuantified over: {p['quantifier']['text']}\nFiles where the behaviour mostly lives (a starting point, not a limit):\n"
+    body = f"THE PROPERTY ({pid}: {p['title']})\nStatement: {p['statement']}\nQuantified over: {p['quantifier']['text']}\nWhy the existing tests do not settle it: {p['why_tests_cant']}\nFiles where the behaviour mostly lives (a starting point, not a limit):\n"
     body += "".join(f"  - {f}\n" for f in p["anchors"]["files"])
-    body += "\n\nALREADY TAKEN - earlier rounds produced the following changes for this property; yours must be DIFFERENT ones, in other functions/mechanisms (do not re-do or vary these; prefer parts of the behaviour, and files, that none of them touches):\n" + "\n".join(taken) + "\n\n"
-    tail = tmpl[tail_start:].replace("/var/tmp/seed2/C13", f"{root}/{pid}").replace('"property": "C13"', f'"property": "{pid}"')
-    open(f"{root}/prompts/{pid}.txt", "w").write(head + body + tail)
+    if taken:
+        body += "\n\nALREADY TAKEN - earlier rounds produced the following changes for this property; yours must be DIFFERENT ones, in other functions/mechanisms (do not re-do or vary these; prefer parts of the behaviour, and files, that none of them touches):\n" + "\n".join(taken) + "\n\n"
+    else:
+        body += "\n\n"
+    txt = (TEMPLATE_HEAD + body + TEMPLATE_TAIL).replace("@WT@", f"{root}/{pid}").replace("@OUT@", f"{root}/{pid}-out").replace("@PID@", pid)
+    open(f"{root}/prompts/{pid}.txt", "w").write(txt)
     print(pid, len(taken))
